@@ -22,6 +22,13 @@ Definition enc_vo (vo : list pentry) : list Z :=
 Definition ref_flag (r : fref) : Z := match r with FByAlias _ => 1 | FByName _ => 0 end.
 Definition sel_flags (q : query) : list Z :=
   map (fun f => ref_flag (fl_ref f)) (q_filters q) ++ map (fun k => ref_flag (ok_ref k)) (q_order q).
+(* the SQL text is compared through its length and two independent 61-bit polynomial hashes
+   (keeps the observation small; the text itself is in the case's meta and in `text_C05`) *)
+Definition hash_step (mul md : Z) (h : Z) (c : N) : Z := ((h * mul + Z.of_N c + 1) mod md).
+Definition hash_text (s : str) : list Z :=
+  [Z.of_nat (List.length s);
+   fold_left (hash_step 1000003 2305843009213693951) s 7;
+   fold_left (hash_step 998244353 2305843009213693921) s 11].
 Definition enc_answer (a : option (list (list val))) : list Z :=
   match a with Some rs => 0 :: enc_result rs | None => [2] end.
 
@@ -77,16 +84,23 @@ Definition run_C05 (c : c05case) : list Z :=
   match c with
   | CQuery m rows q ps =>
       let '(vo, s) := compile m q in
-      enc_str (norm_ws (print m s)) ++ enc_vo vo ++ sel_flags q ++ enc_answer (run_query m rows q ps)
+      hash_text (norm_ws (print m s)) ++ enc_vo vo ++ sel_flags q ++ enc_answer (run_query m rows q ps)
   | CPages m rows q ps n fuel => enc_pages (pages (run_query m rows) q ps n fuel None)
   end.
 
 (* ---- decoding the implementation's observation ---- *)
 Definition take {A} (n : nat) (l : list A) : option (list A * list A) :=
   if Nat.ltb (List.length l) n then None else Some (firstn n l, skipn n l).
+(* a count read from an observation is only trusted if that many elements can follow (keeps the
+   evaluation small on a malformed observation) *)
+Definition count (n : Z) (t : list Z) : option nat :=
+  if Z.ltb n 0 || Z.ltb (Z.of_nat (List.length t)) n then None else Some (Z.to_nat n).
 Definition dec_str (l : list Z) : option (str * list Z) :=
   match l with
-  | n :: t => match take (Z.to_nat n) t with Some (a, b) => Some (map Z.to_N a, b) | None => None end
+  | n :: t => match count n t with
+              | Some k => match take k t with Some (a, b) => Some (map Z.to_N a, b) | None => None end
+              | None => None
+              end
   | [] => None
   end.
 Definition dec_val (l : list Z) : option (val * list Z) :=
@@ -106,10 +120,13 @@ Fixpoint dec_many {A} (one : list Z -> option (A * list Z)) (n : nat) (l : list 
            | None => None
            end
   end.
-Definition dec_row (l : list Z) : option (list val * list Z) :=
-  match l with n :: t => dec_many dec_val (Z.to_nat n) t | [] => None end.
-Definition dec_result (l : list Z) : option (list (list val) * list Z) :=
-  match l with n :: t => dec_many dec_row (Z.to_nat n) t | [] => None end.
+Definition dec_counted {A} (one : list Z -> option (A * list Z)) (l : list Z) : option (list A * list Z) :=
+  match l with
+  | n :: t => match count n t with Some k => dec_many one k t | None => None end
+  | [] => None
+  end.
+Definition dec_row (l : list Z) : option (list val * list Z) := dec_counted dec_val l.
+Definition dec_result (l : list Z) : option (list (list val) * list Z) := dec_counted dec_row l.
 Definition dec_answer (l : list Z) : option (option (list (list val))) :=
   match l with
   | 0 :: t => match dec_result t with Some (rs, []) => Some (Some rs) | _ => None end
@@ -118,10 +135,7 @@ Definition dec_answer (l : list Z) : option (option (list (list val))) :=
   end.
 Definition skip_str (l : list Z) : option (list Z) := option_map snd (dec_str l).
 Definition skip_vo (l : list Z) : option (list Z) :=
-  match l with
-  | n :: t => option_map snd (dec_many (fun l' => match l' with _ :: t' => dec_str t' | [] => None end) (Z.to_nat n) t)
-  | [] => None
-  end.
+  option_map snd (dec_counted (fun l' => match l' with _ :: t' => dec_str t' | [] => None end) l).
 
 (* ---- the property's own oracle ---- *)
 Definition result_eqb (a b : list (list val)) : bool := list_eqb (list_eqb val_eqb) a b.
@@ -136,7 +150,7 @@ Definition spec_C05 (c : c05case) (obs : list Z) : bool :=
   match c with
   | CQuery m rows q ps =>
       (* the answer of the implementation must be the direct evaluation of the query *)
-      match skip_str obs with
+      match (match obs with _ :: _ :: _ :: t => Some t | _ => None end) with
       | Some t1 => match skip_vo t1 with
                    | Some t2 => match dec_answer (skipn (List.length (sel_flags q)) t2) with
                                 | Some a => answer_ok (eval m rows q ps) a
@@ -149,8 +163,8 @@ Definition spec_C05 (c : c05case) (obs : list Z) : bool :=
   | CPages m rows q ps n fuel =>
       (* the pages, one after the other, are the whole ordered result: every row exactly once *)
       match obs with
-      | st :: np :: t =>
-          match dec_many dec_result (Z.to_nat np) t with
+      | st :: t =>
+          match dec_counted dec_result t with
           | Some (pgs, []) => Z.eqb st 0 && answer_ok (eval m rows q ps) (Some (List.concat pgs))
           | _ => false
           end
@@ -285,6 +299,13 @@ Definition wf_pages (m : emodel) (q : query) (ps : params) : bool :=
   && negb (Nat.eqb (List.length (q_order q)) 0)
   && forallb (fun k => match key_pos q k with Some _ => true | None => false end) (q_order q)
   && forallb (fun n => negb (is_cursor_name n)) (query_vars q).
+
+(* diagnostic: the SQL text the model prints for a query case *)
+Definition text_C05 (c : c05case) : list Z :=
+  match c with
+  | CQuery m rows q ps => map Z.of_N (norm_ws (print m (snd (compile m q))))
+  | CPages _ _ _ _ _ _ => []
+  end.
 
 (* diagnostic: are the hypotheses of the theorems met by a case? (evaluated by the harness statistics) *)
 Definition wf_C05 (c : c05case) : list Z :=
